@@ -15,7 +15,7 @@ package parser
 //@   ensures no_newline: iff(length == 0, index == len(s))
 //@   ensures at_newline: length > 0 ==> isNL(s[index])
 //@   ensures length_is_sequence: length == nlLen(s, index)
-//@   invariant 0 scanned: 0 <= index && index <= l && l == len(s) && length == 0 && forall(j, 0, index, !isNL(s[j]))
+//@   invariant 0 scanned: 0 <= index && index <= len(s) && length == 0 && forall(j, 0, index, !isNL(s[j]))
 
 //@ func NextChunk
 //@   ensures chunk_is_prefix: len(chunk) <= len(s) && chunk == substr(s, 0, len(chunk))
